@@ -365,7 +365,9 @@ def obligations(tier: str):
     funcs = [series.Series._impedance, parallel.Parallel._impedance, base._calculate_impedances, circuit.Circuit.get_impedances,
              circuit.Circuit.__init__, base.Connection.get_impedances]
     obs = []
-    shp = shapes(3, 2) if tier == "quick" else shapes(4, 3)
+    # (4 leaves were tried for the thorough tier: three finite admittances in parallel give cubic cancellation conditions on which z3
+    #  answers unknown, so the thorough tier deepens frequencies and entry points instead of leaves)
+    shp = shapes(3, 2)
     nf = 2
     for sh in shp:
         for entry in ("raw", "api", "circuit"):
@@ -377,15 +379,16 @@ def obligations(tier: str):
                                          % (_shape_name(sh), nf, entry), functions=funcs, expect_reach=["law"],
                                   stubs=["leaves are opaque Element subclasses returning symbolic impedances"]))
     if tier == "thorough":
-        for sh in shapes(2, 1) + shapes(3, 2)[:4]:
+        for sh in shapes(3, 2):
             nm = "law3.%s" % _shape_name(sh)
             obs.append(Obligation(nm, make_law_harness(sh, 3, "raw"), bounds="connection %s, 3 frequencies" % _shape_name(sh),
                                   functions=funcs, expect_reach=["law"]))
     obs.append(Obligation("mixed", make_mixed_harness(), bounds="(ee), 2 frequencies, leaves open at any subset of frequencies",
                           functions=funcs, expect_reach=["law"]))
-    for sh in (shapes(3, 2) if tier == "quick" else shapes(4, 2)):
-        obs.append(Obligation("pointwise.%s" % _shape_name(sh), make_pointwise_harness(sh, 2),
-                              bounds="connection %s: array of 2 frequencies vs one at a time" % _shape_name(sh),
+    npw = 2 if tier == "quick" else 3
+    for sh in shapes(3, 2):
+        obs.append(Obligation("pointwise.%s" % _shape_name(sh), make_pointwise_harness(sh, npw),
+                              bounds="connection %s: array of %d frequencies vs one at a time" % (_shape_name(sh), npw),
                               functions=funcs, expect_reach=["pointwise"]))
     for k in ("S", "P"):
         obs.append(Obligation("dispatch.%s" % k, make_dispatch_harness(k), bounds="%s over {element, container element, nested connection}" % k,
@@ -413,7 +416,7 @@ ASSUMPTIONS = [
     "a branch is open (infinite) at every frequency or at none; the mixed case is checked to be refused",
     "floats as reals; positive finite frequencies",
 ]
-OUTSIDE = ["more than 3 (4) leaves / nesting deeper than 2 (3) / more than 2 (3) frequencies", "f = 0 and f = inf (sympy limits)",
+OUTSIDE = ["more than 3 leaves / nesting deeper than 2 / more than 2 (3) frequencies", "f = 0 and f = inf (sympy limits)",
            "builder and parser construction beyond the container shapes of the routes obligation (structural equality is decided under C03)"]
 
 
